@@ -129,3 +129,34 @@ package serialization
 //@   ensures (old(rdRemaining(reader)) >= 1 && old(rdRemaining(reader)) >= common.varsizeAtA(rdData(ref(reader)), old(rdPos[ref(reader)])) && common.varuintAtA(rdData(ref(reader)), old(rdPos[ref(reader)])) < 2097152 && common.varuintAtA(rdData(ref(reader)), old(rdPos[ref(reader)])) > old(rdRemaining(reader)) - common.varsizeAtA(rdData(ref(reader)), old(rdPos[ref(reader)]))) ==> err != nil
 //@   -- a truncated length prefix is an error
 //@   ensures (old(rdRemaining(reader)) == 0 || old(rdRemaining(reader)) < common.varsizeAtA(rdData(ref(reader)), old(rdPos[ref(reader)]))) ==> err != nil
+
+// ReadBytes is byteXReader with the error passed through: same fast-path guarantees
+//@ func ReadBytes
+//@   property C01
+//@   mode abstract   -- inherits byteXReader's undecided slow path
+//@   nopanic on
+//@   requires rdWF(reader)
+//@   modifies rdPos, Store
+//@   ensures length == 0 ==> err == nil && len(r0) == 0 && rdPos[ref(reader)] == old(rdPos[ref(reader)])
+//@   ensures (length != 0 && length < 2097152) ==> (err == nil <==> old(rdRemaining(reader)) >= length)
+//@   ensures (length != 0 && length < 2097152 && err == nil) ==> uint64(len(r0)) == length && rdPos[ref(reader)] == old(rdPos[ref(reader)]) + length
+//@   ensures (length != 0 && length < 2097152 && err == nil) ==> forall i uint64 :: i < length ==> r0[i] == rdData(ref(reader))[old(rdPos[ref(reader)]) + i]
+//@   ensures err != nil ==> r0 == nil
+
+// WriteString hands the stream the length-prefixed bytes of the string through WriteVarBytes
+//@ func WriteString
+//@   property C01
+//@   modifies wrIn
+//@   callsite[encoding] WriteVarBytes#1 requires arg0 == writer && len(arg1) == len(value)
+
+// ReadString is ReadVarBytes with the error passed through: position and length as for ReadVarBytes
+//@ func ReadString
+//@   property C01
+//@   mode abstract   -- inherits byteXReader's undecided slow path
+//@   nopanic on
+//@   requires rdWF(reader)
+//@   modifies rdPos, Store
+//@   ensures (err == nil && common.varuintAtA(rdData(ref(reader)), old(rdPos[ref(reader)])) < 2097152) ==> uint64(len(r0)) == common.varuintAtA(rdData(ref(reader)), old(rdPos[ref(reader)]))
+//@   ensures (err == nil && common.varuintAtA(rdData(ref(reader)), old(rdPos[ref(reader)])) < 2097152) ==> rdPos[ref(reader)] == old(rdPos[ref(reader)]) + common.varsizeAtA(rdData(ref(reader)), old(rdPos[ref(reader)])) + uint64(len(r0))
+//@   ensures (old(rdRemaining(reader)) == 0 || old(rdRemaining(reader)) < common.varsizeAtA(rdData(ref(reader)), old(rdPos[ref(reader)]))) ==> err != nil
+//@   ensures err != nil ==> len(r0) == 0
